@@ -199,9 +199,9 @@ def tasks(tier, seed, selftest=False):
     paths = sorted(glob.glob(os.path.join(mdir, "*.bnet")), key=os.path.getsize)
     small, mid, large = paths[:120], paths[120:180], paths[180:]
     for i in range(0, len(small), 12):
-        T.append({"prop": PROP, "family": "-", "label": "models/small", "timebox": 15, "seed": seed, "params": {"mode": "models", "models": small[i:i + 12], "nspaces": 6}})
+        T.append({"prop": PROP, "family": "-", "label": "models/small", "timebox": 15, "seed": seed, "params": {"mode": "models", "models": small[i:i + 12], "nspaces": 4 if q else 6}})
     for i in range(0, len(mid), 4):
-        T.append({"prop": PROP, "family": "-", "label": "models/medium", "timebox": 20, "seed": seed, "params": {"mode": "models", "models": mid[i:i + 4], "nspaces": 3 if q else 6}})
+        T.append({"prop": PROP, "family": "-", "label": "models/medium", "timebox": 20, "seed": seed, "params": {"mode": "models", "models": mid[i:i + 4], "nspaces": 2 if q else 6}})
     if not q:
         for pth in large:
             T.append({"prop": PROP, "family": "-", "label": "models/large", "timebox": 120, "seed": seed, "params": {"mode": "models", "models": [pth], "nspaces": 4}})
@@ -213,7 +213,7 @@ def main(tier, seed, t0, selftest=False):
     return common.finish(PROP, tier, seed, "model_checking", results, t0, selftest=selftest, functions=FUNCTIONS,
                          bounds={"families": "U2 exhaustive (all 9 subspaces, symbolic); U3 cubes time-boxed (quick) / long (thorough), all 27 subspaces symbolic",
                                  "fine mode": "update-function BDD handles carry (variable, restriction space); is_true/is_false/r_restrict are observations over the symbolic truth table",
-                                 "published models": "120 smallest models x 21 spaces, 60 medium models x 12 spaces (quick); all 210 models (thorough): percolate_space and percolate_space_strict equal the least fixed point computed by z3 constant-tests over all states (empty space, node spaces, single-variable spaces of both polarities, multi-variable spaces some of which conflict with the dynamics)",
+                                 "published models": "120 smallest models x 15 spaces, 60 medium models x 9 spaces (quick); all 210 models (thorough): percolate_space and percolate_space_strict equal the least fixed point computed by z3 constant-tests over all states (empty space, node spaces, single-variable spaces of both polarities, multi-variable spaces some of which conflict with the dynamics)",
                                  "outside": "n > 3 for LDOI tables / drivers / function_eval (symbolic families only); percolation_conflicts (not named by the property)"},
                          assumptions=["AEON Percolation.percolate_subspace: its answer is an observation checked against PERC on the representative (not class-generalised beyond the observed value)",
                                       "AEON BDD r_restrict/is_true/is_false have truth-table semantics (checked on the representative at every call)"])
